@@ -1,9 +1,11 @@
 /-
 C13 — model of the per-test guard of `ego test` (core Lean only).
 
-Go sources mirrored (with fixes/C13.patch applied):
-  internal/language/compiler/testing.go   testDirective, collectTestBodyTokens, compileTestBody,
-                                          emitTestPass, emitTestFail, Fail (@fail)
+Go sources mirrored (with fixes/C13.patch, fixes/C13-2.patch and fixes/C13-3.patch applied):
+  internal/language/compiler/testing.go   testDirective, collectTestBodyTokens, collectVerbatimUntilMarker,
+                                          compileTestBody, emitTestPass, emitTestFail, Fail (@fail)
+  internal/language/compiler/directives.go compileBlockDirective / collectTokensUntilEOFMarker (the eof= span)
+  internal/language/compiler/symbols.go   DefineSymbol / ReferenceSymbol / the file scope's usage map (`Scope` section)
   internal/language/bytecode/try.go       tryByteCode, tryPopByteCode, tryFlushByteCode
   internal/language/bytecode/catch.go     handleCatch (search from the top, unwind to the "try" marker)
   internal/language/bytecode/callframe.go callFramePush (tryDepth) / callFramePop (try stack truncation)
@@ -37,14 +39,44 @@ inductive Tok
   | open                     -- `{`
   | close                    -- `}`
   | stmt (b : Body)          -- the statements of a body (one token per generated body)
+  | eofOpen (m : Nat)        -- `@compile … eof="m"` up to the `;` that ends the directive line
+  | eofMark (m : Nat)        -- the tokens that spell the marker text `m`
   deriving Repr, DecidableEq
 
-/-- collectTestBodyTokens (fixed): everything up to the next `@test`, whatever the brace depth.
-    Returns the body tokens and the rest of the stream (which starts at the next `@test`). -/
-def collectBody : List Tok → List Tok × List Tok
-  | [] => ([], [])
-  | Tok.test n :: rest => ([], Tok.test n :: rest)
-  | t :: rest => let (b, r) := collectBody rest; (t :: b, r)
+/-- does the marker `m` appear in the rest of the stream (collectVerbatimUntilMarker returns true) -/
+def hasMark (m : Nat) : List Tok → Bool
+  | [] => false
+  | Tok.eofMark k :: r => k == m || hasMark m r
+  | _ :: r => hasMark m r
+
+/-- collectTestBodyTokens (fixed) as a state machine; the state is `some m` while
+    collectVerbatimUntilMarker copies the span of an `@compile eof="m"` directive (nothing in the span
+    is a boundary, braces are not looked at) and `none` otherwise (every `@test` is a boundary,
+    whatever the brace depth). fixes/C13-3.patch: a directive whose marker never appears is copied as
+    plain tokens (the tokenizer is set back to the directive), so it ends at the next `@test` like any
+    other body. Returns the body tokens and the rest of the stream (which starts at the next `@test`). -/
+def collect : Option Nat → List Tok → List Tok × List Tok
+  | _, [] => ([], [])
+  | some m, Tok.eofMark k :: rest =>
+      let (b, r) := collect (if k = m then none else some m) rest; (Tok.eofMark k :: b, r)
+  | some m, t :: rest => let (b, r) := collect (some m) rest; (t :: b, r)
+  | none, Tok.test n :: rest => ([], Tok.test n :: rest)
+  | none, Tok.eofOpen m :: rest =>
+      let (b, r) := collect (if hasMark m rest then some m else none) rest; (Tok.eofOpen m :: b, r)
+  | none, t :: rest => let (b, r) := collect none rest; (t :: b, r)
+
+def collectBody (ts : List Tok) : List Tok × List Tok := collect none ts
+
+/-- collectTestBodyTokens before fixes/C13-3.patch: the span of an `@compile eof="m"` directive is
+    copied up to the marker or, if the marker is missing, up to the end of the file. -/
+def collectEofOld : Option Nat → List Tok → List Tok × List Tok
+  | _, [] => ([], [])
+  | some m, Tok.eofMark k :: rest =>
+      let (b, r) := collectEofOld (if k = m then none else some m) rest; (Tok.eofMark k :: b, r)
+  | some m, t :: rest => let (b, r) := collectEofOld (some m) rest; (t :: b, r)
+  | none, Tok.test n :: rest => ([], Tok.test n :: rest)
+  | none, Tok.eofOpen m :: rest => let (b, r) := collectEofOld (some m) rest; (Tok.eofOpen m :: b, r)
+  | none, t :: rest => let (b, r) := collectEofOld none rest; (t :: b, r)
 
 /-- collectTestBodyTokens as it was before the fix: only an `@test` at brace depth 0 is a boundary
     (`depth` is an `Int`: an extra `}` drives it to -1 and it never returns to 0). -/
@@ -57,10 +89,15 @@ def collectBodyOld : Int → List Tok → List Tok × List Tok
   | d, Tok.close :: rest => let (b, r) := collectBodyOld (d - 1) rest; (Tok.close :: b, r)
   | d, t :: rest => let (b, r) := collectBodyOld d rest; (t :: b, r)
 
-theorem collectBody_rest_le (ts : List Tok) : (collectBody ts).2.length ≤ ts.length := by
-  induction ts with
-  | nil => simp [collectBody]
-  | cons t rest ih => cases t <;> simp [collectBody] <;> omega
+theorem collect_rest_le (md : Option Nat) (ts : List Tok) : (collect md ts).2.length ≤ ts.length := by
+  induction ts generalizing md with
+  | nil => cases md <;> simp [collect]
+  | cons t rest ih =>
+    cases md <;> cases t <;> simp only [collect, List.length_cons] <;>
+      first | exact Nat.le_succ_of_le (ih _) | exact Nat.le_refl _
+
+theorem collectBody_rest_le (ts : List Tok) : (collectBody ts).2.length ≤ ts.length :=
+  collect_rest_le none ts
 
 /-- the statement loop of the file compiler: each `@test` takes its body; tokens before the first
     `@test` are not a test. `fuel` bounds the recursion (length of the stream is enough). -/
@@ -85,13 +122,62 @@ def firstStmt : List Tok → Option Body
   | Tok.stmt b :: _ => some b
   | _ :: r => firstStmt r
 
+/-- compileBlockDirective + collectTokensUntilEOFMarker as the block compiler meets them: the span of
+    an `@compile eof="m"` directive (up to and including its marker) is taken out of the body's token
+    stream and compiled on its own (its braces never count for the body); a directive whose marker is
+    missing is a compile error of the body (`none`). -/
+def stripSpans : Option Nat → List Tok → Option (List Tok)
+  | none, [] => some []
+  | some _, [] => none
+  | some m, Tok.eofMark k :: r => if k = m then stripSpans none r else stripSpans (some m) r
+  | some m, _ :: r => stripSpans (some m) r
+  | none, Tok.eofOpen m :: r => stripSpans (some m) r
+  | none, t :: r => (stripSpans none r).map (t :: ·)
+
 /-- result of `subCompiler.Compile("@test", tokens)`: a compile error, or the body to call -/
 def compileBody (toks : List Tok) : Option Body :=
-  if balanced 0 toks then
-    match firstStmt toks with
-    | some b => if b.outcome = Outcome.compileErr then none else some b
-    | none => some { junk := 0, leak := [], outcome := Outcome.pass }
-  else none
+  match stripSpans none toks with
+  | none => none
+  | some toks =>
+    if balanced 0 toks then
+      match firstStmt toks with
+      | some b => if b.outcome = Outcome.compileErr then none else some b
+      | none => some { junk := 0, leak := [], outcome := Outcome.pass }
+    else none
+
+/-! ## the file scope shared by every test's clone (compiler/symbols.go, compiler/compiler.go Clone)
+
+`Clone` copies the slice of scopes but not the `usage` maps in it, so what a test body declares at file
+level (bare statements after `@test "name"`, the older style without braces) lands in the map the file's
+own compiler checks in `Errors()` when the whole file has been compiled. -/
+
+/-- what compiling a body does to the file scope, in source order, up to the point where it stops -/
+inductive ScopeEv | decl (n : Nat) | use (n : Nat)
+  deriving Repr, DecidableEq
+
+/-- `scope.usage` of the file scope: name ↦ `true` (declared, not read yet) | `false` (read) -/
+abbrev Usage := List (Nat × Bool)
+
+/-- DefineSymbol: a name that is not in the map yet is entered as "not read yet" -/
+def define (u : Usage) (n : Nat) : Usage := if u.any (fun p => p.1 == n) then u else (n, true) :: u
+
+/-- validateSymbol: the name is marked as read -/
+def reference (u : Usage) (n : Nat) : Usage := u.map fun p => if p.1 = n then (p.1, false) else p
+
+def applyEvs (u : Usage) : List ScopeEv → Usage
+  | [] => u
+  | ScopeEv.decl n :: r => applyEvs (define u n) r
+  | ScopeEv.use n :: r => applyEvs (reference u n) r
+
+/-- compileTestBody (fixes/C13-2.patch): the names a body that failed to compile added are deleted -/
+def afterBody (u : Usage) (evs : List ScopeEv) (failed : Bool) : Usage :=
+  if failed then (applyEvs u evs).filter fun p => u.any (fun q => q.1 == p.1) else applyEvs u evs
+
+/-- compileTestBody before fixes/C13-2.patch: the abandoned clone's declarations stay in the shared map -/
+def afterBodyOld (u : Usage) (evs : List ScopeEv) (_failed : Bool) : Usage := applyEvs u evs
+
+/-- Errors() at the end of the file: every name still "not read yet" is a compile error of the file -/
+def fileCompiles (u : Usage) : Bool := u.all fun p => !p.2
 
 /-! ## the VM -/
 
@@ -252,8 +338,12 @@ def init : St := { stack := [], tries := [], outStack := [], capturing := false,
 
 /-! ## generated test files -/
 
-/-- a generated @test block: its name, the body, and the brace shape of its source
-    (0 balanced, 1 a missing `}`, 2 an extra `}`) -/
+/-- a generated @test block: its name, the body, and the shape of its source:
+    0 a braced block, 1 a missing `}`, 2 an extra `}`, 3 bare statements (the older style without braces),
+    4 / 6 a braced / bare body with an `@compile eof=` directive whose marker is missing,
+    5 / 7 (and above) a braced / bare body with an `@compile eof=` directive whose span (unbalanced on
+    purpose) ends at its marker. The markers of the directives without a marker in the file (`2*name`)
+    differ from every marker that is in the file (`2*name+1`). -/
 structure Block where
   name : Nat
   body : Body
@@ -261,15 +351,24 @@ structure Block where
   deriving Repr, DecidableEq
 
 def Block.toks (b : Block) : List Tok :=
+  Tok.test b.name ::
   match b.brace with
-  | 0 => [Tok.test b.name, Tok.open, Tok.stmt b.body, Tok.close]
-  | 1 => [Tok.test b.name, Tok.open, Tok.open, Tok.stmt b.body, Tok.close]
-  | _ => [Tok.test b.name, Tok.open, Tok.stmt b.body, Tok.close, Tok.close]
+  | 0 => [Tok.open, Tok.stmt b.body, Tok.close]
+  | 1 => [Tok.open, Tok.open, Tok.stmt b.body, Tok.close]
+  | 2 => [Tok.open, Tok.stmt b.body, Tok.close, Tok.close]
+  | 3 => [Tok.stmt b.body]
+  | 4 => [Tok.open, Tok.eofOpen (2 * b.name), Tok.stmt b.body, Tok.close]
+  | 5 => [Tok.open, Tok.eofOpen (2 * b.name + 1), Tok.open, Tok.eofMark (2 * b.name + 1), Tok.stmt b.body, Tok.close]
+  | 6 => [Tok.eofOpen (2 * b.name), Tok.stmt b.body]
+  | _ => [Tok.eofOpen (2 * b.name + 1), Tok.close, Tok.eofMark (2 * b.name + 1), Tok.stmt b.body]
 
 def tokensOf (blocks : List Block) : List Tok := blocks.flatMap Block.toks
 
+/-- shapes whose source cannot compile whatever the statements are -/
+def Block.damaged (b : Block) : Bool := b.brace == 1 || b.brace == 2 || b.brace == 4 || b.brace == 6
+
 /-- the outcome a block is meant to have -/
-def Block.eff (b : Block) : Outcome := if b.brace = 0 then b.body.outcome else Outcome.compileErr
+def Block.eff (b : Block) : Outcome := if b.damaged then Outcome.compileErr else b.body.outcome
 
 def verdict (b : Block) : Nat × Verdict :=
   (b.name, if b.eff = Outcome.pass then Verdict.PASS else Verdict.FAIL)
